@@ -15,8 +15,6 @@ VARIABLES hist,        \* steps taken, with the expected observable after each s
 
 mcvars == <<vars, hist, nops, nforge, nagain>>
 
-ViewJson(v) == {x \o ":" \o v[x] : x \in {y \in Peers : v[y] # None}}
-
 Step(rec) == hist' = IF ExportOn THEN Append(hist, rec) ELSE <<>>
 
 MCInit ==
@@ -32,49 +30,79 @@ Local(p, op, q, acc, n) ==
 
 \* verdict oracle for exported behaviours: what the repaired code is expected to answer.
 \* Only an expectation: the harness stops following a behaviour whose verdict the code does
-\* not share (counted, never a violation).
-Likely(m) == IF Valid(m) \/ msgs[m].cls \in OkClasses THEN "ok" ELSE "err"
+\* not share (counted, never a violation; a replay that cannot follow most behaviours is a
+\* tool error).
+Likely(p, m) ==
+    LET x == msgs[m] IN
+    IF ~Valid(m) THEN (IF x.cls \in OkClasses THEN "ok" ELSE "err")
+    \* a pull member cannot process the pointer to its own "add" (no welcome message for it)
+    ELSE IF x.kind = "member" /\ msgs[x.ref].act = "add" /\ msgs[x.ref].q = p /\ msgs[x.ref].acc = "pull" THEN "err"
+    \* a removed member does not get the group secret later messages are encrypted with
+    ELSE IF /\ x.kind = "app" /\ WelcomedOf(p, applied[p]) /\ sview[p][p] = None
+            /\ \E k \in x.deps : msgs[k].kind = "member" /\ msgs[msgs[k].ref].act = "remove" /\ msgs[msgs[k].ref].q = p
+         THEN "err"
+    ELSE "ok"
 
 ProcStep(p, m, v) ==
     /\ Process(p, m, v)
     /\ Step([a |-> "Process", p |-> p, m |-> m, v |-> last'.res, again |-> last'.again,
              known |-> ~tainted'[p],
-             smem |-> ViewJson(sview'[p]), gmem |-> ViewJson(gview'[p])])
+             smem |-> sview'[p], gmem |-> gview'[p]])
 
-MCNext ==
-    /\ (ExportOn => Len(hist) < MaxSteps)
-    /\ \/ \E p \in Peers : KeyBundle(p) /\ Local(p, "kb", p, "", 1)
-       \/ \E p \in Peers : Publish(p) /\ Local(p, "publish", p, "", 1)
-       \/ \E q \in Peers, acc \in Access : CreateSpace(q, acc) /\ Local(Manager, "create", q, acc, 2)
-       \/ \E q \in Peers, acc \in Access : AddMember(q, acc) /\ Local(Manager, "add", q, acc, 2)
-       \/ \E q \in Peers : RemoveMember(q) /\ Local(Manager, "remove", q, "", 2)
-       \/ \E by \in Peers, c \in Classes :
-             /\ nforge < MaxForge /\ nforge' = nforge + 1
-             /\ Forge(by, c)
-             /\ Step([a |-> "Forge", by |-> by, cls |-> c, id |-> Len(msgs) + 1])
-             /\ UNCHANGED <<nops, nagain>>
-       \* first delivery, in causal order, with the verdict the oracle expects (or the modelled panic)
-       \/ \E p \in Peers, m \in Ids :
-             /\ m \notin applied[p]
-             /\ ProcStep(p, m, IF msgs[m].cls \in PanicClasses THEN "panic" ELSE Likely(m))
-             /\ UNCHANGED <<nops, nforge, nagain>>
-       \* re-delivery
-       \/ \E p \in Peers, m \in Ids :
-             /\ m \in applied[p]
-             /\ nagain < MaxAgain /\ nagain' = nagain + 1
-             /\ ProcStep(p, m, "ok")
-             /\ UNCHANGED <<nops, nforge>>
+Ended == Len(hist) > 0 /\ hist[Len(hist)].a = "End"
 
+\* export runs end with an explicit step so that exactly the behaviour TLC walked is printed
+\* (in simulation mode invariants are also evaluated on the successors that are not taken)
+Finish ==
+    /\ ExportOn /\ Len(hist) = MaxSteps
+    /\ hist' = Append(hist, [a |-> "End"])
+    /\ UNCHANGED <<vars, nops, nforge, nagain>>
+
+Bounded == ExportOn => Len(hist) < MaxSteps
+
+DoKeyBundle == Bounded /\ \E p \in Peers : KeyBundle(p) /\ Local(p, "kb", p, "", 1)
+DoPublish == Bounded /\ \E p \in Peers : Publish(p) /\ Local(p, "publish", p, "", 1)
+DoCreateSpace == Bounded /\ \E q \in Peers, acc \in Access : CreateSpace(q, acc) /\ Local(Manager, "create", q, acc, 2)
+DoAddMember == Bounded /\ \E q \in Peers, acc \in Access : AddMember(q, acc) /\ Local(Manager, "add", q, acc, 2)
+DoRemoveMember == Bounded /\ \E q \in Peers : RemoveMember(q) /\ Local(Manager, "remove", q, "", 2)
+DoForge ==
+    /\ Bounded
+    /\ \E by \in Peers, c \in Classes :
+          /\ nforge < MaxForge /\ nforge' = nforge + 1
+          /\ Forge(by, c)
+          /\ Step([a |-> "Forge", by |-> by, cls |-> c, id |-> Len(msgs) + 1])
+          /\ UNCHANGED <<nops, nagain>>
+\* first delivery, in causal order, with the verdict the oracle expects (or the modelled panic)
+DoFirst ==
+    /\ Bounded
+    /\ \E p \in Peers, m \in Ids :
+          /\ m \notin applied[p]
+          /\ ProcStep(p, m, IF msgs[m].cls \in PanicClasses THEN "panic" ELSE Likely(p, m))
+          /\ UNCHANGED <<nops, nforge, nagain>>
+\* first delivery with the verdict the oracle does not expect (exhaustive configs only)
+DoFirstOther ==
+    /\ ~ExportOn
+    /\ \E p \in Peers, m \in Ids :
+          /\ m \notin applied[p]
+          /\ msgs[m].cls \notin PanicClasses
+          /\ ProcStep(p, m, IF Likely(p, m) = "ok" THEN "err" ELSE "ok")
+          /\ UNCHANGED <<nops, nforge, nagain>>
+\* re-delivery
+DoAgain ==
+    /\ Bounded
+    /\ \E p \in Peers, m \in Ids :
+          /\ m \in applied[p]
+          /\ nagain < MaxAgain /\ nagain' = nagain + 1
+          /\ ProcStep(p, m, "ok")
+          /\ UNCHANGED <<nops, nforge>>
+
+MCSteps == DoKeyBundle \/ DoPublish \/ DoCreateSpace \/ DoAddMember \/ DoRemoveMember \/ DoForge \/ DoFirst \/ DoAgain
+
+MCNext == MCSteps \/ Finish
 MCSpec == MCInit /\ [][MCNext]_mcvars
 
-\* the unconstrained verdict (both answers to every first delivery) for the exhaustive check
-MCNextOpen ==
-    /\ (ExportOn => Len(hist) < MaxSteps)
-    /\ \/ MCNext
-       \/ \E p \in Peers, m \in Ids :
-             /\ m \notin applied[p]
-             /\ \E v \in {"ok", "err"} : ProcStep(p, m, v)
-             /\ UNCHANGED <<nops, nforge, nagain>>
+\* both answers to every first delivery: the specification does not choose the verdict
+MCNextOpen == MCSteps \/ DoFirstOther
 MCSpecOpen == MCInit /\ [][MCNextOpen]_mcvars
 
 NoHistView == <<vars, nops, nforge, nagain>>
@@ -83,6 +111,7 @@ MC_AgainIsStutter ==
     [][(last' # last /\ last'.again) => (applied' = applied /\ gview' = gview /\ sview' = sview)]_mcvars
 
 Export ==
-    (ExportOn /\ Len(hist) = MaxSteps) =>
-        PrintT(<<"REPLAY", ToJson([kind |-> "spaces", oob |-> oob, peers |-> Cardinality(Peers), steps |-> hist])>>)
+    (ExportOn /\ Ended) =>
+        PrintT(<<"REPLAY", ToJson([kind |-> "spaces", oob |-> oob, peers |-> Cardinality(Peers),
+                                   steps |-> SubSeq(hist, 1, Len(hist) - 1)])>>)
 ===========================================================================
